@@ -42,6 +42,14 @@
                 disconnect: every late read finds it (headers complete, no
                 _clients entry), rebuilds the request from the same headers and
                 answers the message AGAIN
+     "crsplit"  a request line whose CR LF is split over two reads is not recognised: the
+                completed well-formed request is answered 400 (the parser of the first
+                rounds; seeded again as C14-5)
+     "stalepair" the early return of _on_response for body-less responses (HEAD,
+                1xx, 204, 304) keeps _clients[sock]: on a kept-alive connection the
+                next message that gets as far as its header block is judged on
+                the OLD request (no version check, no Host check) and the old
+                request is dispatched and answered again
    dv = {} is the intended discipline: a parser is dropped when its message is
    dispatched or answered, and everything keyed by the socket is released
    when disconnect(sock) is delivered.                                      *)
@@ -53,12 +61,13 @@ CONSTANTS NConn,      \* connections 1..NConn
           Classes,    \* input classes the environment may use
           Racing,     \* BOOLEAN: include reads with the hang-up queued right behind
           Linger,     \* BOOLEAN: include connections whose transport lingers after close
-          DefectSets  \* set of subsets of {"keepbuf", "echo505", "stalebuf"}: the variants to explore
+          DefectSets  \* set of subsets of {"keepbuf", "echo505", "stalebuf", "stalepair", "crsplit"}: the variants to explore
 
 VARIABLES dv,       \* the defect set of this behaviour (chosen initially, then constant)
           cs,       \* c -> [ph, buf, cli, nin, trunc, lg, stale]: trunc = the last input was a
                     \* Truncate; lg = lingering transport; stale = the answer-and-close reaction
-                    \* whose finished parser is still in _buffers ("" if none)
+                    \* whose finished parser is still in _buffers ("" if none); pair = the
+                    \* (request, response) pair of an answered HEAD request is still in _clients
           P,        \* monitor state (HttpConnOps)
           bad,      \* first failed clause, "" if none
           hist,     \* environment history: what the replay drives
@@ -73,7 +82,7 @@ Emit(lines) == LET r == Run(P, lines, bad)
                IN /\ P' = r[1] /\ bad' = r[2]
                   /\ out' = out \o [i \in 1..Len(lines) |-> Compact(lines[i])]
 
-K0 == [ph |-> "none", buf |-> FALSE, cli |-> FALSE, nin |-> 0, trunc |-> FALSE, lg |-> FALSE, stale |-> ""]
+K0 == [ph |-> "none", buf |-> FALSE, cli |-> FALSE, nin |-> 0, trunc |-> FALSE, lg |-> FALSE, stale |-> "", pair |-> FALSE]
 
 Init == /\ dv \in DefectSets
         /\ cs = [c \in Conns |-> K0]
@@ -82,14 +91,20 @@ Init == /\ dv \in DefectSets
 L(k, c, st, pr, sc, a, b) == Line(k, c, "", "", st, pr, sc, a, b)
 B2N(x) == IF x THEN 1 ELSE 0
 
-WfOf(cls) == CASE cls \in {"GoodKA", "GoodClose", "Rest"} -> "good"
+WfOf(cls) == CASE cls \in {"GoodKA", "GoodClose", "GoodHead", "Rest"} -> "good"
                [] cls \in {"Truncate", "TlsCut"} -> "partial"
                [] OTHER -> "mal"
+
+(* the request a message asks for, as far as the grammar vouches for it (the class stands for
+   "METHOD target"); a Rest completes the Truncate before it *)
+WantOf(cls) == IF cls \in {"GoodKA", "GoodClose", "GoodHead", "Truncate"} THEN cls
+               ELSE IF cls = "Rest" THEN "Truncate" ELSE ""
 
 (* the code paths of HTTP._on_read a class of input can reach *)
 Reactions(cls) ==
   CASE cls = "GoodKA"    -> {"accK"}
     [] cls = "GoodClose" -> {"accC"}
+    [] cls = "GoodHead"  -> {"accH"}
     [] cls = "BadLine"   -> {"r400", "accK", "accC", "r505", "r301", "x500", "wait"}
                               \cup (IF "echo505" \in dv THEN {"r505g", "r400g", "r400k"} ELSE {})
     [] cls = "BadHeader" -> {"r400", "accK", "accC", "r301", "x500"}
@@ -100,15 +115,16 @@ Reactions(cls) ==
     [] cls = "TlsHello"  -> {"pclose", "wait", "r400", "x500"}
     [] cls = "Truncate"  -> {"wait", "waitB"}
     [] cls = "TlsCut"    -> {"wait", "pclose"}
-    [] cls = "Rest"      -> {"accK", "accC", "r400", "wait", "waitB"}
+    [] cls = "Rest"      -> {"accK", "accC"} \cup (IF "crsplit" \in dv THEN {"r400"} ELSE {})
     [] OTHER             -> {}
 
 Closing == {"accC", "r400", "r400g", "r400k", "r505", "r505g", "r301", "x500", "pclose"}
 
 (* the events of a reaction, up to and excluding the transport's reaction to close *)
-Events(r, c) ==
-  CASE r = "accK"  -> <<L("req", c, 0, "", FALSE, 0, 0), L("resp", c, 200, "ok", FALSE, 0, 0)>>
-    [] r = "accC"  -> <<L("req", c, 0, "", FALSE, 0, 0), L("resp", c, 200, "ok", TRUE, 0, 0), L("close", c, 0, "", FALSE, 0, 0)>>
+Events(r, c, id) ==
+  CASE r \in {"accK", "accH"} -> <<L("req", c, 0, id, FALSE, 0, 0), L("resp", c, 200, "ok", FALSE, 0, 0)>>
+    [] r = "accOld" -> <<L("req", c, 0, "GoodHead", FALSE, 0, 0), L("resp", c, 200, "ok", FALSE, 0, 0)>>
+    [] r = "accC"  -> <<L("req", c, 0, id, FALSE, 0, 0), L("resp", c, 200, "ok", TRUE, 0, 0), L("close", c, 0, "", FALSE, 0, 0)>>
     [] r = "r400"  -> <<L("rej", c, 400, "", FALSE, 0, 0), L("resp", c, 400, "ok", TRUE, 0, 0), L("close", c, 0, "", FALSE, 0, 0)>>
     [] r = "r505"  -> <<L("rej", c, 505, "", FALSE, 0, 0), L("resp", c, 505, "ok", TRUE, 0, 0), L("close", c, 0, "", FALSE, 0, 0)>>
     [] r = "r505g" -> <<L("rej", c, 505, "", FALSE, 0, 0), L("resp", c, 0, "garbage", FALSE, 0, 0), L("close", c, 0, "", FALSE, 0, 0)>>
@@ -126,8 +142,13 @@ StaleExits == {"r505", "r505g", "r301", "x500"}
 BufAfter(r) == r \in {"wait", "waitB"} \/ ("stalebuf" \in dv /\ r \in StaleExits)
 CliAfter(r) == r = "waitB"
 
+(* with a stale (request, response) pair in _clients every message whose header block
+   is complete and parses is judged on the old request: it is dispatched again *)
+Eff(c, r) == IF cs[c].pair /\ r \notin {"wait", "r400", "r400g", "r400k", "pclose"} THEN "accOld" ELSE r
+PairAfter(c, r) == cs[c].pair \/ (r = "accH" /\ "stalepair" \in dv)
+
 (* disconnect(sock) delivered: HTTP._on_disconnect *)
-Released(k) == [k EXCEPT !.ph = "gone", !.cli = FALSE, !.stale = "",
+Released(k) == [k EXCEPT !.ph = "gone", !.cli = FALSE, !.stale = "", !.pair = FALSE,
                          !.buf = IF "keepbuf" \in dv THEN @ ELSE FALSE]
 
 Tabs(ncs) ==
@@ -154,15 +175,17 @@ Enabled(c, cls) ==
 (* one read event carrying a message of class cls; the component runs to quiescence *)
 In(c, cls, r) ==
   /\ CanStep /\ Enabled(c, cls) /\ r \in Reactions(cls)
-  /\ LET cl  == r \in Closing
-         k1  == [cs[c] EXCEPT !.nin = @ + 1, !.trunc = (cls = "Truncate"), !.buf = BufAfter(r), !.cli = CliAfter(r),
-                              !.stale = IF BufAfter(r) /\ r \in StaleExits THEN r ELSE "",
-                              !.ph = IF r \in {"wait", "waitB"} THEN "wait" ELSE IF cl THEN "closing" ELSE "idle"]
+  /\ LET e   == Eff(c, r)
+         cl  == e \in Closing
+         k1  == [cs[c] EXCEPT !.nin = @ + 1, !.trunc = (cls = "Truncate"), !.buf = BufAfter(e),
+                              !.cli = CliAfter(e) \/ PairAfter(c, e), !.pair = PairAfter(c, e),
+                              !.stale = IF BufAfter(e) /\ e \in StaleExits THEN e ELSE "",
+                              !.ph = IF e \in {"wait", "waitB"} THEN "wait" ELSE IF cl THEN "closing" ELSE "idle"]
          k2  == IF cl /\ ~cs[c].lg THEN Released(k1) ELSE k1
          ncs == [cs EXCEPT ![c] = k2]
          tr  == IF cl /\ ~cs[c].lg THEN <<L("disc", c, 0, "", FALSE, 0, 0)>> ELSE <<>>
      IN /\ cs' = ncs
-        /\ Emit(<<Line("in", c, cls, WfOf(cls), 0, "", FALSE, 0, 0)>> \o Events(r, c) \o tr \o StepEnd(c, ncs))
+        /\ Emit(<<Line("in", c, cls, WfOf(cls), 0, WantOf(cls), FALSE, 0, 0)>> \o Events(e, c, WantOf(cls)) \o tr \o StepEnd(c, ncs))
   /\ hist' = Append(hist, <<"I", c, cls>>) /\ UNCHANGED dv
 
 (* a late read: the component has fired close(sock), the lingering transport still
@@ -173,24 +196,27 @@ Late(c, cls, r) ==
   /\ IF cs[c].stale = "" THEN r \in Reactions(cls)
      ELSE IF cs[c].stale = "x500" THEN r \in {"x500", "wait", "r400"}   \* a parser that raised half-way may also just go on
      ELSE r = cs[c].stale
-  /\ LET k1  == IF cs[c].stale # "" THEN [cs[c] EXCEPT !.nin = @ + 1]
-                ELSE [cs[c] EXCEPT !.nin = @ + 1, !.buf = BufAfter(r), !.cli = CliAfter(r),
-                                   !.stale = IF BufAfter(r) /\ r \in StaleExits THEN r ELSE ""]
+  /\ LET e   == IF cs[c].stale # "" THEN r ELSE Eff(c, r)
+         k1  == IF cs[c].stale # "" THEN [cs[c] EXCEPT !.nin = @ + 1]
+                ELSE [cs[c] EXCEPT !.nin = @ + 1, !.buf = BufAfter(e), !.cli = CliAfter(e) \/ PairAfter(c, e),
+                                   !.pair = PairAfter(c, e),
+                                   !.stale = IF BufAfter(e) /\ e \in StaleExits THEN e ELSE ""]
          ncs == [cs EXCEPT ![c] = k1]
      IN /\ cs' = ncs
-        /\ Emit(<<Line("in", c, cls, WfOf(cls), 0, "", FALSE, 0, 0)>> \o Events(r, c) \o StepEnd(c, ncs))
+        /\ Emit(<<Line("in", c, cls, WfOf(cls), 0, WantOf(cls), FALSE, 0, 0)>> \o Events(e, c, WantOf(cls)) \o StepEnd(c, ncs))
   /\ hist' = Append(hist, <<"I", c, cls>>) /\ UNCHANGED dv
 
 (* the same as In with the peer's hang-up queued right behind the read: the
    disconnect is handled before the events the read handler fired *)
 InX(c, cls, r) ==
   /\ Racing /\ CanStep /\ Enabled(c, cls) /\ ~cs[c].lg /\ r \in Reactions(cls)
-  /\ LET k1  == [cs[c] EXCEPT !.nin = @ + 1, !.trunc = (cls = "Truncate"), !.buf = BufAfter(r), !.cli = CliAfter(r)]
+  /\ LET e   == Eff(c, r)
+         k1  == [cs[c] EXCEPT !.nin = @ + 1, !.trunc = (cls = "Truncate"), !.buf = BufAfter(e), !.cli = CliAfter(e)]
          ncs == [cs EXCEPT ![c] = Released(k1)]
-         tr  == IF r \in Closing THEN <<L("disc", c, 0, "", FALSE, 1, 0)>> ELSE <<>>
+         tr  == IF e \in Closing THEN <<L("disc", c, 0, "", FALSE, 1, 0)>> ELSE <<>>
      IN /\ cs' = ncs
-        /\ Emit(<<Line("in", c, cls, WfOf(cls), 0, "", FALSE, 0, 0), L("disc", c, 0, "", FALSE, 1, 0)>>
-                \o Events(r, c) \o tr \o StepEnd(c, ncs))
+        /\ Emit(<<Line("in", c, cls, WfOf(cls), 0, WantOf(cls), FALSE, 0, 0), L("disc", c, 0, "", FALSE, 1, 0)>>
+                \o Events(e, c, WantOf(cls)) \o tr \o StepEnd(c, ncs))
   /\ hist' = Append(hist, <<"X", c, cls>>) /\ UNCHANGED dv
 
 (* the peer hangs up: the transport fires disconnect(sock) *)
@@ -209,7 +235,7 @@ TDisc(c) ==
      /\ Emit(<<L("disc", c, 0, "", FALSE, 0, 0)>> \o StepEnd(c, ncs))
   /\ hist' = Append(hist, <<"T", c, "">>) /\ UNCHANGED dv
 
-AllReactions == {"accK", "accC", "r400", "r400g", "r400k", "r505", "r505g", "r301", "x500", "wait", "waitB", "pclose"}
+AllReactions == {"accK", "accC", "accH", "r400", "r400g", "r400k", "r505", "r505g", "r301", "x500", "wait", "waitB", "pclose"}
 
 Next == \E c \in Conns :
           \/ \E lg \in BOOLEAN : Connect(c, lg)
